@@ -3,6 +3,17 @@
 #pragma once
 #include "wire_iface.h"
 #include <memory>
+#include <sys/socket.h>
+#include <pcap.h>
+
+// The platform constants the Lean model hard-codes (lean/TinsModel/Wire/L2/{Loopback,Ppi,Pktap}.lean): if this platform
+// disagrees the harness does not build and the checks report it.
+static_assert(PF_INET == 2 && PF_INET6 == 10, "Loopback.lean: PF_INET / PF_INET6");
+#ifdef PF_LLC
+static_assert(PF_LLC == 26, "Loopback.lean: PF_LLC");
+#endif
+static_assert(DLT_NULL == 0 && DLT_EN10MB == 1 && DLT_IEEE802_11 == 105 && DLT_LINUX_SLL == 113 &&
+              DLT_IEEE802_11_RADIO == 127 && DLT_PPI == 192, "Ppi.lean / Pktap.lean: DLT_* values");
 namespace wire {
 
 inline std::string pppoe_typed(const PPPoE& p, PPPoE::TagTypes t) {
